@@ -224,6 +224,10 @@ func (p *prop) judge(k *kase, sel string, rcd *rec, res *scriptResult, o *core.O
 		fail("write-result", "%s", res.writeFault)
 	}
 
+	if res.hijackFault != "" {
+		fail("hijack-not-passed-through", "%s", res.hijackFault)
+	}
+
 	// ---- 2. transparency of the body
 	noBodyStatus := rcd.sent && rcd.status == 101
 	mixed := encoderUsed && rcd.plain.Len() > 0 // reported once; the header clauses below are about properly encoded responses
